@@ -291,9 +291,9 @@ func c12Run(e *core.Env) {
 	if e.Thorough() {
 		corePrecs = []uint32{16, 34, 60}
 	}
-	ranges := [][2]int32{{-6143, 6144}, {-100000, 100000}, {-3, 9}}
+	ranges := [][2]int32{{-6143, 6144}, {-100000, 100000}, {-3, 9}, {0, 9}}
 	if e.Thorough() {
-		ranges = append(ranges, [2]int32{-1, 5}, [2]int32{-20, 20}, [2]int32{0, 9})
+		ranges = append(ranges, [2]int32{-1, 5}, [2]int32{-20, 20})
 	}
 	k := 2
 	if e.Thorough() {
@@ -336,7 +336,7 @@ func c12Run(e *core.Env) {
 		if r[1] < int32(p) {
 			r = ranges[0]
 		}
-		return MkCtx(p, r[0], r[1], modes[i%len(modes)], 0)
+		return MkCtx(p, r[0], r[1], modes[(i/len(ranges))%len(modes)], 0)
 	}
 	// unary functions on dense + shape + special argument families
 	un := append(append([]Operand{}, dense...), shapes...)
@@ -386,6 +386,30 @@ func c12Run(e *core.Env) {
 		for _, p := range allP {
 			run("Exp", x, nil, ctxFor(p, i))
 			run("Exp", x, nil, MkCtx(p, -100000, 100000, apd.RoundHalfEven, 0))
+		}
+	}
+	// tight exponent ranges: every three-digit coefficient at two exponents under ranges in which
+	// the functions' intermediate values would be subnormal
+	for c := int64(1); c < 1000; c++ {
+		idx++
+		if !e.Mine(idx) {
+			continue
+		}
+		e.State()
+		for _, ex := range []int32{-2, 0} {
+			x := Fin(c, ex, false)
+			for _, p := range []uint32{1, 2} {
+				for _, r := range [][2]int32{{0, 9}, {-1, 5}} {
+					for _, m := range []apd.Rounder{apd.RoundHalfEven, apd.RoundFloor} {
+						for _, op := range []string{"Exp", "Ln", "Log10"} {
+							if op == "Exp" && ex == 0 && c > 30 {
+								continue
+							}
+							run(op, x, nil, MkCtx(p, r[0], r[1], m, 0))
+						}
+					}
+				}
+			}
 		}
 	}
 	// 200-operand core at high precisions
@@ -514,9 +538,9 @@ func init() {
 		Rule:  "every (function, operands, precision, exponent range, mode) point of the product is executed and compared with a high-precision real reference (big.Float, own ln 2 / ln 10 by atanh series, explicit relative error bound; precision doubled until the one-ulp question is decided, otherwise counted as undecided and never reported); exact-by-definition cases exactly; overflow/underflow reports only if the exact value lies outside the range; non-trivial = operand inside the function's domain",
 		Bounds: func(tier string) string {
 			if tier == "thorough" {
-				return "Exp/Ln/Log10 on DENSE(3,4) + SHAPE(12) x p = 1..9 (rotating 6 exponent ranges x 6 modes), Ln/Log10 arguments 10^k(1+-10^-j) j<=14 |k|<=6, Exp arguments {10^-j, 22.9p, 23p, 23p+1, 22999..23001, 230258, 230259} at p in 1..9,16,34,60; constant tables: p = 2^i, 2^i+-1 up to 2200 through Ln and Log10; Pow on selected DENSE(3,3) x {integers -12..12, 20 fractions} x p in {1,2,3,5,9}"
+				return "Exp/Ln/Log10 on DENSE(3,4) + SHAPE(12) x p = 1..9 (each operand under a rotating (exponent range, mode) pair out of 6 ranges incl. [0,9], [-1,5], [-3,9] x 6 modes, every pair reached), Ln/Log10 arguments 10^k(1+-10^-j) j<=14 |k|<=6, tight ranges [0,9] and [-1,5] at p in {1,2} x {half_even, floor} on every c*10^e, c<1000, e in {-2,0}; Exp arguments {10^-j, 22.9p, 23p, 23p+1, 22999..23001, 230258, 230259} at p in 1..9,16,34,60; constant tables: p = 2^i, 2^i+-1 up to 2200 through Ln and Log10; Pow on selected DENSE(3,3) x {integers -12..12, 20 fractions} x p in {1,2,3,5,9}"
 			}
-			return "Exp/Ln/Log10 on selected DENSE(3,4) + SHAPE(8) x p = 1..9, Ln/Log10 arguments 10^k(1+-10^-j) j<=8 |k|<=3, Exp argument family at p in 1..9,16,34; constant tables up to p = 257; Pow on ~60 bases x 45 exponents x alternating p in {1,2,3,5,9}"
+			return "Exp/Ln/Log10 on selected DENSE(3,4) + SHAPE(8) x p = 1..9 (each operand under a rotating (exponent range, mode) pair out of 4 ranges incl. [0,9], [-3,9] x 6 modes, every pair reached), Ln/Log10 arguments 10^k(1+-10^-j) j<=8 |k|<=3, Exp argument family at p in 1..9,16,34; tight ranges [0,9] and [-1,5] at p in {1,2} x {half_even, floor} on every c*10^e, c<1000, e in {-2,0}; constant tables up to p = 257; Pow on ~60 bases x 45 exponents x alternating p in {1,2,3,5,9}"
 		},
 		Run:    c12Run,
 		Replay: c12Replay,
